@@ -115,6 +115,9 @@ type tcase struct {
 	layered    bool
 	reqs       []*request
 	ord        []int // order in which the peer deals with the requests
+	// at the end: the application closes the output, a request of this kind
+	// ("" none) then fails to be sent, and a reply with its id arrives
+	tailSendFails string
 }
 
 var iqEntries = []string{"SendIQ", "SendIQElement", "EncodeIQ", "EncodeIQElement", "UnmarshalIQ", "UnmarshalIQElement", "IterIQ", "IterIQElement"}
@@ -158,6 +161,9 @@ func genCase(t *rapid.T) tcase {
 		tc.reqs = append(tc.reqs, r)
 	}
 	tc.ord = rapid.Permutation(seq(n)).Draw(t, "order")
+	if rapid.IntRange(0, 2).Draw(t, "tail") == 0 {
+		tc.tailSendFails = rapid.SampledFrom([]string{"iq", "message", "presence"}).Draw(t, "tailKind")
+	}
 	return tc
 }
 
@@ -171,7 +177,7 @@ func seq(n int) []int {
 
 func (tc tcase) String() string {
 	var sb strings.Builder
-	fmt.Fprintf(&sb, "s2s=%v session=%q layered=%v answer-order=%v", tc.s2s, tc.negotiated, tc.layered, tc.ord)
+	fmt.Fprintf(&sb, "s2s=%v session=%q layered=%v answer-order=%v then-Close-and-a-failing-%q-request=%v", tc.s2s, tc.negotiated, tc.layered, tc.ord, tc.tailSendFails, tc.tailSendFails != "")
 	for _, r := range tc.reqs {
 		fmt.Fprintf(&sb, "\n  req %s: %s scenario=%s reply=%s read=%s hold=%v context-ends-while-held=%v early=%v ns=%q", r.id(), r.entry, r.scen, r.reply, r.read, r.hold, r.cancelHeld, r.early, r.nsForm)
 	}
@@ -690,6 +696,74 @@ func check(t interface {
 				stall(fmt.Sprintf("req %s did not return", r.id()))
 				cleanup()
 				return
+			}
+		}
+	}
+	if tc.tailSendFails != "" {
+		// orderly shutdown by the application while the peer keeps talking: the
+		// output is closed, a further request fails to be sent (its context
+		// stays alive), and then a result / error stanza with that very id
+		// arrives (a late answer to an earlier use of the id): nobody waits for
+		// it, it goes to the handler and the serve loop carries on
+		if err := sv.Session.Close(); err != nil {
+			fail("Close returned %v", err)
+		}
+		kind := tc.tailSendFails
+		el := xt.El("", kind, []xml.Attr{xt.A("id", "tail-1"), xt.A("type", map[string]string{"iq": "get", "message": "chat", "presence": "subscribe"}[kind])}, xt.El("urn:verif:c06", "q", nil))
+		done := make(chan error, 1)
+		go func() {
+			var resp xmlstream.TokenReadCloser
+			var err error
+			switch kind {
+			case "iq":
+				resp, err = sv.Session.SendIQ(context.Background(), el.Reader())
+			case "message":
+				resp, err = sv.Session.SendMessage(context.Background(), el.Reader())
+			default:
+				resp, err = sv.Session.SendPresence(context.Background(), el.Reader())
+			}
+			if resp != nil {
+				_ = resp.Close()
+			}
+			done <- err
+		}()
+		select {
+		case err := <-done:
+			if err == nil {
+				fail("a %s request sent after Close returned nil", kind)
+			}
+		case <-time.After(waitLong):
+			stall("a request sent after the output was closed did not return")
+			cleanup()
+			return
+		}
+		typ := "error"
+		if kind == "iq" && tc.s2s {
+			typ = "result"
+		}
+		f1 := feed(kind, typ, "tail-1", -1, "handler")
+		f2 := feed("message", "chat", "tail-marker", -1, "handler")
+		deadline := time.Now().Add(waitLong)
+		for hl.count(f2.serial) == 0 && time.Now().Before(deadline) {
+			select {
+			case <-sv.Done():
+				deadline = time.Now()
+			default:
+				time.Sleep(200 * time.Microsecond)
+			}
+		}
+		if hl.count(f1.serial) != 1 || hl.count(f2.serial) != 1 {
+			if b := wire.BlockedMatching("handleInputStream"); len(b) > 0 {
+				fail("after Close, a %s request with id tail-1 failed to be sent (its context is alive); the peer then sent a %s %s with that id (n=%s) and a message (n=%s): the handler saw them %d and %d times; the serve loop is parked inside the library:\n%s", kind, kind, typ, f1.serial, f2.serial, hl.count(f1.serial), hl.count(f2.serial), strings.Join(b, "\n\n"))
+			}
+			select {
+			case <-sv.Done():
+				if p := sv.Panic(); p != "" {
+					fail("%s", p)
+				}
+				ev.Class("inconclusive-serve-ended-early")
+			default:
+				fail("after Close, a %s request with id tail-1 failed to be sent; the peer then sent a %s %s with that id (n=%s) and a message (n=%s): the handler saw them %d and %d times", kind, kind, typ, f1.serial, f2.serial, hl.count(f1.serial), hl.count(f2.serial))
 			}
 		}
 	}
